@@ -62,7 +62,12 @@ pub trait Workload {
 
 thread_local! {
     static LAST_PANIC: RefCell<Option<(String, String)>> = RefCell::new(None);
+    /// set when a panic reports that the operating system refused a resource (thread, memory):
+    /// an environment failure, never an observation about the engine
+    static RESOURCE_PANIC: RefCell<Option<String>> = RefCell::new(None);
 }
+
+pub fn take_resource_panic() -> Option<String> { RESOURCE_PANIC.with(|p| p.borrow_mut().take()) }
 
 pub fn install_panic_hook() {
     panic::set_hook(Box::new(|info| {
@@ -70,6 +75,9 @@ pub fn install_panic_hook() {
                   else if let Some(s) = info.payload().downcast_ref::<String>() { s.clone() }
                   else { "<non-string panic>".to_string() };
         let loc = info.location().map(|l| format!("{}:{}", l.file(), l.line())).unwrap_or_default();
+        if ["failed to spawn thread", "Resource temporarily unavailable", "Cannot allocate memory", "os error 11", "os error 12", "Too many open files", "os error 24"].iter().any(|k| msg.contains(k)) {
+            RESOURCE_PANIC.with(|p| *p.borrow_mut() = Some(msg.clone()));
+        }
         LAST_PANIC.with(|p| *p.borrow_mut() = Some((msg, loc)));
     }));
 }
@@ -89,7 +97,8 @@ impl Panic {
         if let Some(p) = m.find(':') { m.truncate(p); }
         m.chars().map(|c| if c.is_ascii_digit() { '#' } else { c }).collect()
     }
-    pub fn in_engine(&self) -> bool { self.loc.contains("/repo/") || self.loc.starts_with("src/") || !self.loc.contains("/verif/") }
+    /// the panic was raised by the repository's code (wherever the checkout lives), not by the monitor
+    pub fn in_engine(&self) -> bool { !self.loc.contains("/verif/monitor/") && !self.loc.contains("/rustc/") && !self.loc.contains("/library/") }
 }
 
 /// Run f; a panic becomes Err with message and location.
